@@ -855,6 +855,18 @@ func opHandlerBind(env *LEnv, args *LVal) *LVal {
 				if hval.FunType == LFunNone {
 					return env.FunCall(hval, SExpr(hargs))
 				}
+				// A special operator or macro handler is applied by
+				// evaluating a call form, and it evaluates (or expands and
+				// then evaluates) its argument forms itself.  Each datum is
+				// therefore made self-evaluating (an unquoted symbol or list
+				// is quoted; everything else already evaluates to itself), so
+				// that what reaches the handler is the datum and not the
+				// result of evaluating it as an expression.
+				for i := 1; i < len(hargs); i++ {
+					if x := hargs[i]; !x.quoted && (x.Type == LSymbol || x.Type == LSExpr) {
+						hargs[i] = Quote(x)
+					}
+				}
 				return env.Eval(SExpr(append([]*LVal{hval}, hargs...)))
 			}
 			return val
